@@ -217,3 +217,109 @@ func DecodeTJ(arg PDFValue) (shown []Shown, lead int, odd bool) {
 	}
 	return shown, lead, odd
 }
+
+// CFFCharStringsIndexOK looks into an OpenType font program with a 'CFF ' table and reports whether the CharStrings
+// offset of the Top DICT (operator 17) points at a well-formed INDEX header (count, offSize in 1..4, first offset 1,
+// data inside the table): 1 yes, 0 no, -1 not applicable / not decidable. A small, independent structural reader
+// (Adobe TN 5176): header, Name INDEX, Top DICT INDEX, operand encoding of DICT data.
+func CFFCharStringsIndexOK(sfnt []byte) (res int) {
+	defer func() {
+		if recover() != nil {
+			res = -1
+		}
+	}()
+	if len(sfnt) < 12 || string(sfnt[0:4]) != "OTTO" {
+		return -1
+	}
+	n := int(sfnt[4])<<8 | int(sfnt[5])
+	var cff []byte
+	for i := 0; i < n; i++ {
+		e := sfnt[12+16*i:]
+		if string(e[0:4]) == "CFF " {
+			off := int(e[8])<<24 | int(e[9])<<16 | int(e[10])<<8 | int(e[11])
+			ln := int(e[12])<<24 | int(e[13])<<16 | int(e[14])<<8 | int(e[15])
+			cff = sfnt[off : off+ln]
+		}
+	}
+	if cff == nil {
+		return -1
+	}
+	// INDEX at p: returns count, offSize, offset of the object data (relative base), end of the INDEX
+	index := func(p int) (count, offSize, base, end int, ok bool) {
+		count = int(cff[p])<<8 | int(cff[p+1])
+		if count == 0 {
+			return 0, 0, p + 2, p + 2, true
+		}
+		offSize = int(cff[p+2])
+		if offSize < 1 || offSize > 4 {
+			return count, offSize, 0, 0, false
+		}
+		rd := func(i int) int {
+			v := 0
+			for k := 0; k < offSize; k++ {
+				v = v<<8 | int(cff[p+3+i*offSize+k])
+			}
+			return v
+		}
+		base = p + 3 + (count+1)*offSize - 1
+		if rd(0) != 1 || base+rd(count) > len(cff) {
+			return count, offSize, base, 0, false
+		}
+		return count, offSize, base, base + rd(count), true
+	}
+	_, _, _, e1, ok := index(int(cff[2])) // Name INDEX
+	if !ok {
+		return -1
+	}
+	c2, _, b2, e2, ok := index(e1) // Top DICT INDEX
+	if !ok || c2 < 1 {
+		return -1
+	}
+	td := cff[b2+1 : e2]
+	var stack []int
+	cs := -1
+	for k := 0; k < len(td); {
+		b0 := int(td[k])
+		switch {
+		case b0 <= 21:
+			if b0 == 12 {
+				k++
+			} else if b0 == 17 && len(stack) > 0 {
+				cs = stack[len(stack)-1]
+			}
+			stack = nil
+			k++
+		case b0 == 28:
+			stack = append(stack, int(int16(int(td[k+1])<<8|int(td[k+2]))))
+			k += 3
+		case b0 == 29:
+			stack = append(stack, int(int32(int(td[k+1])<<24|int(td[k+2])<<16|int(td[k+3])<<8|int(td[k+4]))))
+			k += 5
+		case b0 == 30:
+			k++
+			for td[k]&0x0f != 0x0f && td[k]>>4 != 0x0f {
+				k++
+			}
+			k++
+			stack = append(stack, 0)
+		case b0 >= 32 && b0 <= 246:
+			stack = append(stack, b0-139)
+			k++
+		case b0 >= 247 && b0 <= 250:
+			stack = append(stack, (b0-247)*256+int(td[k+1])+108)
+			k += 2
+		case b0 >= 251 && b0 <= 254:
+			stack = append(stack, -(b0-251)*256-int(td[k+1])-108)
+			k += 2
+		default:
+			k++
+		}
+	}
+	if cs <= 0 || cs+3 > len(cff) {
+		return 0
+	}
+	if _, _, _, _, ok := index(cs); !ok {
+		return 0
+	}
+	return 1
+}
